@@ -100,6 +100,31 @@ pub fn structured() -> Vec<(String, Deviation)> {
             }
         }
     }
+    // licensing messages of every type with every body length 0..24 (consistent wMsgSize)
+    for ty in [0x01u8, 0x02, 0x03, 0x04, 0x12, 0x13, 0x15, 0xFF] {
+        for body_len in 0..=24usize {
+            for fill in [0x00u8, 0x11, 0xFF] {
+                v.push((format!("licence message type {:#x} body of {} bytes {:#04x}", ty, body_len, fill), Deviation { msg: "licence".into(), kind: DevKind::ReplaceInner(lic(0x0080, ty, 0x03, &vec![fill; body_len])) }));
+            }
+        }
+    }
+    // many indications for a channel the client never joined (and for its user channel) in front of the licence
+    for n in [1usize, 16, 1000, 40000, 300000] {
+        for channel in [1005u16, 1007] {
+            let one = vref::framing::tpkt(&vref::framing::x224_dt(&vref::mcs::send_data_indication(1002, channel, &[0x11; 4])));
+            v.push((format!("{} indications on channel {} before the licence", n, channel), Deviation { msg: "licence".into(), kind: DevKind::PrependRepeated(one, n) }));
+        }
+    }
+    // a frame announcing more than the server ever sends (then the stream ends): sizes around the multiples of 4096
+    for announced in [0x1004u16, 0x2004, 0x3004, 0x4004, 0x8004, 0xF004, 0x2005, 0x2003, 0xFFFF, 0x0100] {
+        for present in [0usize, 1, 100] {
+            for name in ["connect_response", "attach_confirm", "licence"] {
+                let mut f = vec![3u8, 0, (announced >> 8) as u8, announced as u8];
+                f.extend(std::iter::repeat(0x02).take(present));
+                v.push((format!("TPKT announcing {} bytes, {} present, then end of stream, instead of {}", announced, present, name), Deviation { msg: name.into(), kind: DevKind::Replace(f) }));
+            }
+        }
+    }
     // licensing PDU: SEC_LICENSE_PKT together with each other security-header flag x 0..12 bytes after the security header
     for bit in 0..16u16 {
         for after in 0..=12usize {
@@ -300,8 +325,7 @@ impl C05 {
                 (b.into(), 0, vec![Deviation { msg: self.inner_msgs[m].clone(), kind: DevKind::Replace(s) }], None)
             }
             "structured" => {
-                let sv = structured();
-                let (_, d) = sv[(i / 3) as usize].clone();
+                let (_, d) = crate::alloc::exempt(|| structured()[(i / 3) as usize].clone());
                 (b.into(), (i % 3) as usize, vec![d], None)
             }
             "direct" => {
@@ -335,13 +359,15 @@ impl Prop for C05 {
         self.conn_space.clear();
         for k in 0..2 {
             let c = raw_connect(&ClientCfg::default(), server_cfg(k), vec![]);
-            if let Some((st, e)) = c.error {
-                return Err(format!("honest connect (server configuration {}) failed at {}: {}", k, st, e));
-            }
             let sent = c.peer.borrow().srv.sent.clone();
             let msgs: Vec<Msg> = sent.iter().map(|s| Msg { name: s.0.clone(), honest: s.1.clone() }).collect();
+            // the honest run only serves to collect the five honest server messages: a client that refuses the last one
+            // with an error (C03's matter, not a crash) has still made the server send all of them
             if msgs.len() != 5 {
-                return Err(format!("honest connect: expected 5 server messages, saw {:?}", msgs.iter().map(|m| &m.name).collect::<Vec<_>>()));
+                return Err(match c.error {
+                    Some((st, e)) => format!("honest connect (server configuration {}) failed at {}: {}", k, st, e),
+                    None => format!("honest connect: expected 5 server messages, saw {:?}", msgs.iter().map(|m| &m.name).collect::<Vec<_>>()),
+                });
             }
             self.conn_space.push(FaultSpace::new(msgs, tier));
         }
@@ -431,6 +457,7 @@ pub fn dev_class(d: &Deviation) -> &'static str {
         DevKind::Truncate(_) => "truncate",
         DevKind::Extend(_) => "extend",
         DevKind::Replace(_) => "replace",
+        DevKind::Prepend(_) | DevKind::PrependRepeated(..) => "prepend",
         DevKind::ReplaceInner(_) => "replace-inner",
     }
 }
